@@ -437,7 +437,7 @@ func xmlFacts(n *XN) []*PExp {
 			fs = append(fs, &PExp{Op: "childposeq", NT: &nt, N: cnt[nt], V: it})
 		}
 		for _, a := range n.Attrs {
-			if a.Prefix != "xmlns" && a.Local != "xmlns" && a.Value == k.innerText() {
+			if a.Prefix != "xmlns" && a.Local != "xmlns" && a.Value == k.innerText() && cnt[nt] == 1 {
 				nm := [2]string{a.Prefix, a.Local}
 				fs = append(fs, &PExp{Op: "attreqchild", Name: &nm, NT: &nt})
 			}
